@@ -36,6 +36,25 @@ def seed():
         return 0
 
 
+def changed_sources():
+    """typedpy/**/*.py files whose content differs from the recorded baseline (baseline_tree.json): the
+    tree the checks were last shown to pass on.  Empty list = unchanged tree (or no baseline recorded)."""
+    try:
+        base = json.load(open(os.path.join(VERIF, "baseline_tree.json")))["files"]
+    except Exception:  # noqa
+        return []
+    now = {}
+    for root, _, files in os.walk(os.path.join(REPO, "typedpy")):
+        for f in files:
+            if f.endswith(".py"):
+                p = os.path.join(root, f)
+                try:
+                    now[os.path.relpath(p, REPO)] = hashlib.sha256(open(p, "rb").read()).hexdigest()
+                except OSError:
+                    now[os.path.relpath(p, REPO)] = "unreadable"
+    return sorted(k for k in set(base) | set(now) if base.get(k) != now.get(k))
+
+
 def workdir(tag):
     d = os.path.join(WORK, f"{tag}-{os.getpid()}")
     os.makedirs(d, exist_ok=True)
